@@ -388,3 +388,11 @@ Qed.
 Theorem nofail_never_unwinds : forall p s, nofail p = true -> reach p s ->
   unwound s = false /\ forall i r, nth_error (rs s) i = Some r -> unw r = false.
 Proof. intros p s NF R. destruct (nf_inv_reach _ _ NF R). split; auto. Qed.
+
+(* hence the result does not depend on the schedule: it is the result of every sequential order of the
+   critical sections, in particular of running the routines one after the other *)
+Theorem guarded_result_schedule_independent : forall p x m s1 s2, guarded p x m = true -> nofail p = true ->
+  reach p s1 -> all_finished s1 = true -> reach p s2 -> all_finished s2 = true -> nth x (mem s1) 0 = nth x (mem s2) 0.
+Proof.
+  intros. rewrite (counter_final _ _ _ _ H H0 H1 H2), (counter_final _ _ _ _ H H0 H3 H4). auto.
+Qed.
